@@ -129,6 +129,11 @@ pub trait Pool {
     fn verif_add_block_calls(&self) -> usize {
         0
     }
+    /// Verification hook: number of `add_vote` / `add_cert` calls this pool has seen.
+    #[cfg(feature = "verif-hooks")]
+    fn verif_add_msg_calls(&self) -> (usize, usize) {
+        (0, 0)
+    }
 }
 
 /// Shared, lock-protected handle to a [`Pool`] trait object.
@@ -162,6 +167,8 @@ pub struct PoolImpl {
     verif_finalization_log: Vec<FinalizationEvent>,
     #[cfg(feature = "verif-hooks")]
     verif_add_block_calls: usize,
+    #[cfg(feature = "verif-hooks")]
+    verif_add_msg_calls: (usize, usize),
 }
 
 impl PoolImpl {
@@ -185,6 +192,8 @@ impl PoolImpl {
             verif_finalization_log: Vec::new(),
             #[cfg(feature = "verif-hooks")]
             verif_add_block_calls: 0,
+            #[cfg(feature = "verif-hooks")]
+            verif_add_msg_calls: (0, 0),
         }
     }
 
@@ -475,6 +484,10 @@ impl Pool for PoolImpl {
     /// Adds a new certificate to the pool.
     #[hotpath::measure]
     async fn add_cert(&mut self, cert: ValidatedCert) -> Result<(), AddCertError> {
+        #[cfg(feature = "verif-hooks")]
+        {
+            self.verif_add_msg_calls.1 += 1;
+        }
         // ignore old and far-in-the-future certificates
         let slot = cert.slot();
         // TODO: set bounds exactly correctly
@@ -508,6 +521,10 @@ impl Pool for PoolImpl {
     /// Adds a new vote to the pool.
     #[hotpath::measure]
     async fn add_vote(&mut self, vote: ValidatedVote) -> Result<(), AddVoteError> {
+        #[cfg(feature = "verif-hooks")]
+        {
+            self.verif_add_msg_calls.0 += 1;
+        }
         // ignore old and far-in-the-future votes
         let slot = vote.slot();
         // TODO: set bounds exactly correctly
@@ -650,6 +667,11 @@ impl Pool for PoolImpl {
     #[cfg(feature = "verif-hooks")]
     fn verif_add_block_calls(&self) -> usize {
         self.verif_add_block_calls
+    }
+
+    #[cfg(feature = "verif-hooks")]
+    fn verif_add_msg_calls(&self) -> (usize, usize) {
+        self.verif_add_msg_calls
     }
 
     fn wait_for_parent_ready(&mut self, slot: Slot) -> Either<BlockId, oneshot::Receiver<BlockId>> {
